@@ -208,6 +208,9 @@ def check(run):
     nsys, dsys = 0, set()
     if sexe:
         nsys, dsys = sysmodel.whole_run_stream(run, lib, sexe, 28 if run.tier == "quick" else 400, 6, run.violation)
+        n2, d2 = sysmodel.default_format_stream(run, lib, sexe, 12 if run.tier == "quick" else 120, 4, run.violation)
+        nsys += n2
+        dsys |= set(("full",) + x for x in d2)
     if not ok and not run.violations:
         run.violation("proof:%s" % failed, "proof", "proof obligation no longer checks: %s\n%s" % (failed, log[-1500:]), {"theorem": failed, "coq_log": log[-3000:]})
     run.coverage.update({
